@@ -96,6 +96,7 @@ def sort_of(t):
     elif k == 'text': s = TextS
     elif k in ('list', 'dict', 'set', 'obj'): s = Ref
     elif k == 'fset': s = z3.ArraySort(sort_of(t.args[0]), z3.BoolSort())
+    elif k == 'fmap': s = z3.ArraySort(sort_of(t.args[0]), sort_of(t.args[1]))
     elif k == 'tuple':
         sig = tuple(sort_name(sort_of(a)) for a in t.args)
         if sig not in _tuple_dt:
